@@ -1,15 +1,15 @@
 import Bnum.Model.BitOps
-import Bnum.Lemmas.AddSub
+import Bnum.Lemmas.AddSub2
 
 /-!
   Lemmas for C07: `cmp`, `eq`, the `int/cmp.rs` family, sign predicates.
 -/
 namespace Bnum
 
-theorem WF_reverse {w n : Nat} {x : List Nat} (h : WF w n x) : WF w n x.reverse :=
+theorem Cmp.WF_reverse {w n : Nat} {x : List Nat} (h : WF w n x) : WF w n x.reverse :=
   ⟨by simpa using h.1, fun d hd => h.2 d (by simpa using hd)⟩
 
-theorem WF_append_singleton {w n t : Nat} {x : List Nat} :
+theorem Cmp.WF_append_singleton {w n t : Nat} {x : List Nat} :
     WF w (n + 1) (x ++ [t]) ↔ WF w n x ∧ t < B w := by
   unfold WF
   constructor
@@ -22,25 +22,26 @@ theorem WF_append_singleton {w n t : Nat} {x : List Nat} :
     · simp at h; subst h; exact h3
 
 /-- a well-formed non-empty list splits as `low digits ++ [top digit]` -/
-theorem WF_snoc {w n : Nat} {x : List Nat} (h : WF w (n + 1) x) :
+theorem Cmp.WF_snoc {w n : Nat} {x : List Nat} (h : WF w (n + 1) x) :
     ∃ y t, x = y ++ [t] ∧ WF w n y ∧ t < B w := by
-  rcases List.eq_nil_or_concat x with h0 | ⟨y, t, rfl⟩
+  rcases List.eq_nil_or_concat x with h0 | ⟨y, t, h1⟩
   · subst h0; exact absurd h.1 (by simp)
-  · exact ⟨y, t, rfl, WF_append_singleton.mp h⟩
+  · rw [List.concat_eq_append] at h1; subst h1
+    exact ⟨y, t, rfl, Cmp.WF_append_singleton.mp h⟩
 
-theorem U_snoc (w t : Nat) (x : List Nat) : U w (x ++ [t]) = U w x + B w ^ x.length * t := by
+theorem Cmp.U_snoc (w t : Nat) (x : List Nat) : U w (x ++ [t]) = U w x + B w ^ x.length * t := by
   rw [U_append]; simp
 
-theorem U_snoc' {w n t : Nat} {x : List Nat} (h : WF w n x) :
+theorem Cmp.U_snoc' {w n t : Nat} {x : List Nat} (h : WF w n x) :
     U w (x ++ [t]) = U w x + M w n * t := by
-  rw [U_snoc, M_eq_pow, h.1]
+  rw [Cmp.U_snoc, M_eq_pow, h.1]
 
-theorem topDigit_snoc (x : List Nat) (t : Nat) : topDigit (x ++ [t]) = t := by
+theorem Cmp.topDigit_snoc (x : List Nat) (t : Nat) : topDigit (x ++ [t]) = t := by
   simp [topDigit]
 
 /-! ### unsigned comparison -/
 
-theorem compare_snoc {p u1 u2 t s : Nat} (h1 : u1 < p) (h2 : u2 < p) :
+theorem Cmp.compare_snoc {p u1 u2 t s : Nat} (h1 : u1 < p) (h2 : u2 < p) :
     compare (u1 + p * t) (u2 + p * s) =
       if t > s then .gt else if t < s then .lt else compare u1 u2 := by
   split
@@ -76,10 +77,10 @@ theorem cmpRev_spec {w : Nat} : ∀ (n : Nat) (r1 r2 : List Nat), WF w n r1 → 
     match r1, r2, h1, h2 with
     | t :: r1, s :: r2, h1, h2 =>
       rw [WF_cons] at h1 h2
-      have e1 := WF_reverse h1.2
-      have e2 := WF_reverse h2.2
+      have e1 := Cmp.WF_reverse h1.2
+      have e2 := Cmp.WF_reverse h2.2
       simp only [cmpRev, List.reverse_cons]
-      rw [U_snoc' e1, U_snoc' e2, compare_snoc (U_lt e1) (U_lt e2), ih r1 r2 h1.2 h2.2]
+      rw [Cmp.U_snoc' e1, Cmp.U_snoc' e2, Cmp.compare_snoc (U_lt e1) (U_lt e2), ih r1 r2 h1.2 h2.2]
     | [], _, h1, _ => exact absurd h1.1 (by simp)
     | _ :: _, [], _, h2 => exact absurd h2.1 (by simp)
 
@@ -87,10 +88,10 @@ theorem cmpRev_spec {w : Nat} : ∀ (n : Nat) (r1 r2 : List Nat), WF w n r1 → 
 theorem cmp_spec {w n : Nat} {a b : List Nat} (ha : WF w n a) (hb : WF w n b) :
     cmp a b = compare (U w a) (U w b) := by
   unfold cmp
-  rw [cmpRev_spec n _ _ (WF_reverse ha) (WF_reverse hb)]
+  rw [cmpRev_spec n _ _ (Cmp.WF_reverse ha) (Cmp.WF_reverse hb)]
   simp
 
-theorem cmp_snoc {w n : Nat} {x y : List Nat} (t s : Nat) (hx : WF w n x) (hy : WF w n y) :
+theorem cmp_snoc (x y : List Nat) (t s : Nat) :
     cmp (x ++ [t]) (y ++ [s]) = if t > s then .gt else if t < s then .lt else cmp x y := by
   unfold cmp; simp [cmpRev]
 
@@ -116,11 +117,11 @@ end UI
 /-! ### signed values -/
 
 /-- the two's-complement value splits at the top digit: low digits unsigned, top digit signed -/
-theorem S_snoc {w n t : Nat} {x : List Nat} (hw : 1 ≤ w) (hx : WF w n x) (ht : t < B w) :
+theorem Cmp.S_snoc {w n t : Nat} {x : List Nat} (hw : 1 ≤ w) (hx : WF w n x) (ht : t < B w) :
     S w (x ++ [t]) = (U w x : Int) + (M w n : Int) * toInt (B w) t := by
   unfold S
   have hlen : (x ++ [t]).length = n + 1 := by simp [hx.1]
-  rw [hlen, U_snoc' hx, M_succ]
+  rw [hlen, Cmp.U_snoc' hx, M_succ]
   have hu := U_lt hx
   have hB := B_even hw
   have hp := M_pos w n
@@ -140,7 +141,7 @@ theorem S_snoc {w n t : Nat} {x : List Nat} (hw : 1 ≤ w) (hx : WF w n x) (ht :
       omega
     simp only [h, h', if_false]; push_cast; ring
 
-theorem S_injective {w n : Nat} {x y : List Nat} (hx : WF w n x) (hy : WF w n y)
+theorem Cmp.S_injective {w n : Nat} {x y : List Nat} (hx : WF w n x) (hy : WF w n y)
     (h : S w x = S w y) : x = y := by
   apply U_injective hx hy
   have h1 := S_emod hx
@@ -149,12 +150,9 @@ theorem S_injective {w n : Nat} {x y : List Nat} (hx : WF w n x) (hy : WF w n y)
   have : (U w x : Int) = U w y := by rw [← h1, ← h2]
   exact_mod_cast this
 
-theorem toInt_injective {m a b : Nat} (ha : a < m) (hb : b < m) (h : toInt m a = toInt m b) :
+theorem Cmp.toInt_injective {m a b : Nat} (ha : a < m) (hb : b < m) (h : toInt m a = toInt m b) :
     a = b := by
   unfold toInt at h; split_ifs at h <;> omega
-
-theorem toInt_lt_toInt_bound {b t s : Nat} (hb : b = 2 * (b / 2)) (ht : t < b) (hs : s < b) :
-    toInt b s + 1 ≤ toInt b t → True := fun _ => trivial
 
 namespace II
 
@@ -162,20 +160,20 @@ namespace II
 theorem cmp_spec {w n : Nat} (hw : 1 ≤ w) (hn : 1 ≤ n) {a b : List Nat}
     (ha : WF w n a) (hb : WF w n b) : cmp w a b = compare (S w a) (S w b) := by
   obtain ⟨n, rfl⟩ := Nat.exists_eq_add_of_le' hn
-  obtain ⟨x, t, rfl, hx, ht⟩ := WF_snoc ha
-  obtain ⟨y, s, rfl, hy, hs⟩ := WF_snoc hb
+  obtain ⟨x, t, rfl, hx, ht⟩ := Cmp.WF_snoc ha
+  obtain ⟨y, s, rfl, hy, hs⟩ := Cmp.WF_snoc hb
   unfold cmp
-  simp only [topDigit_snoc]
-  rw [S_snoc hw hx ht, S_snoc hw hy hs]
+  simp only [Cmp.topDigit_snoc]
+  rw [Cmp.S_snoc hw hx ht, Cmp.S_snoc hw hy hs]
   have hux := U_lt hx
   have huy := U_lt hy
   have hp := M_pos w n
   by_cases h1 : toInt (B w) t = toInt (B w) s
-  · have := toInt_injective ht hs h1
+  · have := Cmp.toInt_injective ht hs h1
     subst this
     simp only [if_true]
-    rw [UI.cmp_spec (WF_append_singleton.mpr ⟨hx, ht⟩) (WF_append_singleton.mpr ⟨hy, ht⟩),
-      U_snoc' hx, U_snoc' hy]
+    rw [UI.cmp_spec (Cmp.WF_append_singleton.mpr ⟨hx, ht⟩) (Cmp.WF_append_singleton.mpr ⟨hy, ht⟩),
+      Cmp.U_snoc' hx, Cmp.U_snoc' hy]
     generalize toInt (B w) t = z
     generalize U w x = u1 at *; generalize U w y = u2 at *; generalize M w n = p at *
     rcases h : compare (u1 + p * t) (u2 + p * t) with _ | _ | _
@@ -198,7 +196,7 @@ theorem eq_iff_S {w n : Nat} {a b : List Nat} (ha : WF w n a) (hb : WF w n b) :
     eq a b = true ↔ S w a = S w b := by
   unfold eq
   rw [UI.eq_iff a b (by rw [ha.1, hb.1])]
-  exact ⟨fun h => by rw [h], S_injective ha hb⟩
+  exact ⟨fun h => by rw [h], Cmp.S_injective ha hb⟩
 
 end II
 
@@ -299,11 +297,11 @@ end CmpImpl
 
 /-! ### sign predicates -/
 
-theorem isNegative_snoc {w n t : Nat} {x : List Nat} (hw : 1 ≤ w) (hx : WF w n x) (ht : t < B w) :
+theorem Cmp.isNegative_snoc {w n t : Nat} {x : List Nat} (hw : 1 ≤ w) (hx : WF w n x) (ht : t < B w) :
     isNegative w (x ++ [t]) = decide (S w (x ++ [t]) < 0) := by
-  rw [S_snoc hw hx ht]
+  rw [Cmp.S_snoc hw hx ht]
   unfold isNegative Prim.isNeg
-  rw [topDigit_snoc]
+  rw [Cmp.topDigit_snoc]
   have hu := U_lt hx
   have hp := M_pos w n
   generalize M w n = p at *; generalize U w x = u at *; generalize B w = b at *
@@ -322,30 +320,23 @@ theorem isNegative_snoc {w n t : Nat} {x : List Nat} (hw : 1 ≤ w) (hx : WF w n
     have : (0 : Int) ≤ p * t := Int.mul_nonneg (by omega) (by omega)
     omega
 
-/-- C07: `is_negative` ⇔ the denoted integer is `< 0`. -/
-theorem isNegative_iff {w n : Nat} (hw : 1 ≤ w) (hn : 1 ≤ n) {a : List Nat} (ha : WF w n a) :
-    isNegative w a = true ↔ S w a < 0 := by
-  obtain ⟨n, rfl⟩ := Nat.exists_eq_add_of_le' hn
-  obtain ⟨x, t, rfl, hx, ht⟩ := WF_snoc ha
-  rw [isNegative_snoc hw hx ht]; simp
-
-theorem isZero_iff_U {w : Nat} : ∀ (x : List Nat), isZero x = true ↔ U w x = 0
+theorem Cmp.isZero_iff_U {w : Nat} : ∀ (x : List Nat), isZero x = true ↔ U w x = 0
   | [] => by simp [isZero]
   | d :: ds => by
-    have ih := isZero_iff_U (w := w) ds
+    have ih := Cmp.isZero_iff_U (w := w) ds
     have hB := B_pos w
     unfold isZero
     by_cases hd : d = 0
     · subst hd; simp [ih]; omega
     · simp [hd]
 
-theorem S_eq_zero_iff {w n : Nat} {a : List Nat} (ha : WF w n a) : S w a = 0 ↔ U w a = 0 := by
+theorem Cmp.S_eq_zero_iff {w n : Nat} {a : List Nat} (ha : WF w n a) : S w a = 0 ↔ U w a = 0 := by
   unfold S; rw [ha.1]
   have := U_lt ha
   unfold toInt; split <;> omega
 
-theorem isZero_iff_S {w n : Nat} {a : List Nat} (ha : WF w n a) : isZero a = true ↔ S w a = 0 := by
-  rw [isZero_iff_U (w := w), S_eq_zero_iff ha]
+theorem Cmp.isZero_iff_S {w n : Nat} {a : List Nat} (ha : WF w n a) : isZero a = true ↔ S w a = 0 := by
+  rw [Cmp.isZero_iff_U (w := w), Cmp.S_eq_zero_iff ha]
 
 namespace II
 
@@ -353,12 +344,12 @@ namespace II
 theorem isPositive_iff {w n : Nat} (hw : 1 ≤ w) (hn : 1 ≤ n) {a : List Nat} (ha : WF w n a) :
     isPositive w a = true ↔ 0 < S w a := by
   obtain ⟨n, rfl⟩ := Nat.exists_eq_add_of_le' hn
-  obtain ⟨x, t, rfl, hx, ht⟩ := WF_snoc ha
+  obtain ⟨x, t, rfl, hx, ht⟩ := Cmp.WF_snoc ha
   unfold isPositive Prim.isPos
-  simp only [topDigit_snoc]
-  have hz := isZero_iff_U (w := w) (x ++ [t])
-  rw [S_snoc hw hx ht]
-  rw [U_snoc' hx] at hz
+  simp only [Cmp.topDigit_snoc]
+  have hz := Cmp.isZero_iff_U (w := w) (x ++ [t])
+  rw [Cmp.S_snoc hw hx ht]
+  rw [Cmp.U_snoc' hx] at hz
   have hu := U_lt hx
   have hp := M_pos w n
   have hB := B_even hw
@@ -374,41 +365,14 @@ theorem isPositive_iff {w n : Nat} (hw : 1 ≤ w) (hn : 1 ≤ n) {a : List Nat} 
     by_cases h1 : 2 * t < b
     · simp only [h1, if_true]
       have : (0 : Int) < p * t := by exact_mod_cast (by omega : 0 < p * t)
-      simp [h0, h1]; omega
+      simp [h0]; omega
     · simp only [h1, if_false]
       have : (p : Int) * ((t : Int) - b) ≤ p * (-1) := Int.mul_le_mul_of_nonneg_left (by omega) (by omega)
-      simp [h0, h1]; omega
+      simp [h0]; omega
 
 end II
 
-/-! ### constants -/
-theorem WF_zero (w n : Nat) : WF w n (zero n) :=
-  ⟨by simp [zero], fun d hd => by simp [zero] at hd; rw [hd.2]; exact B_pos w⟩
-theorem U_zero (w n : Nat) : U w (zero n) = 0 := U_replicate_zero w n
-theorem WF_one {w : Nat} (hw : 1 ≤ w) (n : Nat) : WF w n (one n) := by
-  cases n with
-  | zero => exact WF_nil w
-  | succ n =>
-    unfold one fromDigit
-    exact WF_cons.mpr ⟨by have := B_ge_two hw; omega, WF_zero w n⟩
-theorem U_one (w n : Nat) : U w (one (n + 1)) = 1 := by
-  simp [one, fromDigit, U_replicate_zero]
-theorem WF_allOnes (w n : Nat) : WF w n (allOnes w n) :=
-  ⟨by simp [allOnes], fun d hd => by
-    simp [allOnes] at hd; rw [hd.2]; have := B_pos w; omega⟩
-theorem U_allOnes (w n : Nat) : U w (allOnes w n) = M w n - 1 := by
-  induction n with
-  | zero => simp [allOnes, M]
-  | succ n ih =>
-    have : allOnes w (n + 1) = (B w - 1) :: allOnes w n := by simp [allOnes, List.replicate_succ]
-    rw [this, U_cons, ih, M_succ]
-    have hB := B_pos w; have hM := M_pos w n
-    generalize M w n = m at *; generalize B w = b at *
-    obtain ⟨m', rfl⟩ := Nat.exists_eq_add_of_le' hM
-    obtain ⟨b', rfl⟩ := Nat.exists_eq_add_of_le' hB
-    simp only [Nat.add_sub_cancel, Nat.mul_add, Nat.add_mul]; omega
-
-theorem S_of_U_small {w n : Nat} {x : List Nat} (hx : WF w n x) (h : 2 * U w x < M w n) :
+theorem Cmp.S_of_U_small {w n : Nat} {x : List Nat} (hx : WF w n x) (h : 2 * U w x < M w n) :
     S w x = U w x := by
   unfold S; rw [hx.1]; exact toInt_of_lt h
 
@@ -417,8 +381,8 @@ namespace II
 theorem signum_spec {w n : Nat} (hw : 2 ≤ w) (hn : 1 ≤ n) {a : List Nat} (ha : WF w n a) :
     WF w n (signum w a) ∧
     S w (signum w a) = if S w a < 0 then -1 else if S w a = 0 then 0 else 1 := by
-  have hneg := isNegative_iff (show 1 ≤ w by omega) hn ha
-  have hz := isZero_iff_S (w := w) ha
+  have hneg := isNegative_iff' (show 1 ≤ w by omega) hn ha
+  have hz := Cmp.isZero_iff_S (w := w) ha
   have hM : 4 ≤ M w n := by
     obtain ⟨k, rfl⟩ := Nat.exists_eq_add_of_le' hn
     rw [M_succ]
@@ -440,12 +404,11 @@ theorem signum_spec {w n : Nat} (hw : 2 ≤ w) (hn : 1 ≤ n) {a : List Nat} (ha
     by_cases h2 : S w a = 0
     · rw [if_pos (hz.mpr h2), if_pos h2]
       refine ⟨WF_zero w n, ?_⟩
-      rw [S_of_U_small (WF_zero w n) (by rw [U_zero]; omega), U_zero]; rfl
+      rw [Cmp.S_of_U_small (WF_zero w n) (by rw [U_zero]; omega), U_zero]; rfl
     · have : ¬ isZero a = true := fun h => h2 (hz.mp h)
       rw [if_neg this, if_neg h2]
-      obtain ⟨k, rfl⟩ := Nat.exists_eq_add_of_le' hn
-      refine ⟨WF_one (by omega) _, ?_⟩
-      rw [S_of_U_small (WF_one (by omega) _) (by rw [U_one]; omega), U_one]; rfl
+      refine ⟨WF_one (by omega) hn, ?_⟩
+      rw [Cmp.S_of_U_small (WF_one (by omega) hn) (by rw [U_one hn]; omega), U_one hn]; rfl
 end II
 
 /-! ### trait glue -/
